@@ -68,7 +68,7 @@ func cliChild(ctx context.Context, dir string, pre []string, args ...string) *ex
 		}
 		env = append(env, e)
 	}
-	cmd.Env = append(env, "VERIF_D2CLI_CHILD=1", "BROWSER=0")
+	cmd.Env = append(env, "VERIF_D2CLI_CHILD=1", "BROWSER=0", "GOMAXPROCS=4")
 	return cmd
 }
 
